@@ -14,29 +14,43 @@ against the real `errors.Is` / `tun.IsTimeout` / `tun.IsNoDirect` (op `lib`).
 namespace Specter.C36
 
 /-- `errors.Is(e, sentinel k)` -/
-def Err.is (e : Err) (k : Kind) : Bool := e.leaf == k
+def Err.is (e : Err) (k : Kind) : Bool := decide (e.leaf = k)
 
 /-- "the OUTERMOST value implements `Timeout() bool` and it returns true" -/
 def timeoutMethod : List Wrap → Kind → Bool
-  | [], k => k == .deadline || k == .netTimeout
+  | [], k => decide (k = .deadline) || decide (k = .netTimeout)
   | .fmt :: _, _ => false
   | .op :: rest, k => timeoutMethod rest k
 
-/-- `tun.IsTimeout`: `errors.Is(err, context.DeadlineExceeded)`, else `err.(net.Error)` → `Timeout()`. -/
-def isTimeout (e : Err) : Bool := e.is .deadline || timeoutMethod e.wraps e.leaf
+/-- `errors.As(err, &e)` with `e net.Error`, then `e.Timeout()`: the FIRST value of the unwrap chain that is a
+`net.Error` answers. `fmt` wrappers are skipped; a `net.OpError` answers (by asking its direct inner error);
+of the innermost errors only `deadline` / `netTimeout` / `netOther` are `net.Error`s. -/
+def asNetErrorTimeout : List Wrap → Kind → Bool
+  | [], k => decide (k = .deadline) || decide (k = .netTimeout)
+  | .fmt :: rest, k => asNetErrorTimeout rest k
+  | .op :: rest, k => timeoutMethod rest k
+
+/-- `tun.IsTimeout` (current): `errors.Is(err, context.DeadlineExceeded)`, else `errors.As(err, &netErr)` → `Timeout()`. -/
+def isTimeout (e : Err) : Bool := e.is .deadline || asNetErrorTimeout e.wraps e.leaf
+
+/-- `tun.IsTimeout` before commit "fix: detect wrapped network timeouts": type assertion on the outermost value only. -/
+def isTimeoutPreFix (e : Err) : Bool := e.is .deadline || timeoutMethod e.wraps e.leaf
 
 /-- `tun.IsNoDirect` -/
 def isNoDirect (e : Err) : Bool := e.is .noDirect || e.is .notConnected
 
-def evalCond (e : Err) : Cond → Bool
+def evalCond (tmo : Err → Bool) (e : Err) : Cond → Bool
   | .isAny ks => ks.any e.is
-  | .isTimeout => isTimeout e
+  | .isTimeout => tmo e
 
-/-- `errorHandler`: first branch of the generated chain whose condition holds, else the fall-through. -/
-def classify (e : Err) : Act :=
-  match Gen.C36.errorChain.find? (fun p => evalCond e p.1) with
+/-- `errorHandler` over a given `IsTimeout`: first branch of the generated chain whose condition holds, else the fall-through. -/
+def classifyWith (tmo : Err → Bool) (e : Err) : Act :=
+  match Gen.C36.errorChain.find? (fun p => evalCond tmo e p.1) with
   | some p => p.2
   | none => Gen.C36.errorDefault
+
+/-- `errorHandler` as it is now -/
+def classify (e : Err) : Act := classifyWith isTimeout e
 
 /-! ### stream paths -/
 inductive Frame where
